@@ -9,7 +9,7 @@ from scipy import sparse
 class FactorGraph():
     def __init__(self, domain, cliques, total = 1.0, convex = False, iters=25):
         self.domain = domain
-        self.cliques = cliques
+        self.cliques = list(dict.fromkeys(cliques))
         self.total = total
         self.convex = convex
         self.iters = iters
